@@ -80,6 +80,10 @@ type pop3Client struct {
 	conn    *simnet.Conn
 	br      *bufio.Reader
 	timeout time.Duration // read/write deadline per operation
+	// a slow but steady reader: while reading a multi-line reply it pauses slowBy after every slowChunk bytes
+	slowChunk int
+	slowBy    time.Duration
+	slowAcc   int
 }
 
 func dialPOP3(c *Ctx, name string, timeout time.Duration) (*pop3Client, error) {
@@ -137,6 +141,12 @@ func (cl *pop3Client) readReply(multi bool) popReply {
 				break
 			}
 			r.Body = append(r.Body, ln)
+			if cl.slowChunk > 0 {
+				if cl.slowAcc += len(ln) + 2; cl.slowAcc >= cl.slowChunk {
+					cl.slowAcc = 0
+					simrt.Sleep(cl.slowBy)
+				}
+			}
 		}
 	}
 	cl.logf("<- %s", r)
